@@ -37,6 +37,12 @@ func startEcho(ep *core.Episode, o SrvOpts) *echoRun {
 	nw := core.NewNet(ep)
 	srv := NewSrv(ep, nw, o)
 	e := &Echo{Stream: o.Stream}
+	if o.SenseDisconnect {
+		// hertz started the detecting goroutine with a bare go statement just before the handler:
+		// park here so that it reaches its blocking read now, under the scheduler's control, and
+		// not whenever the Go runtime happens to run it
+		e.Enter = func() { ep.S.Yield("handler.enter") }
+	}
 	srv.Eng.Any("/*any", e.Handle)
 	srv.Eng.NoRoute(e.Handle) // extension methods have no method tree
 	srv.Start()
@@ -146,6 +152,11 @@ func RunC01(ep *core.Episode) {
 	o.ReturnToTransport = tp.Chance("returnmode", 1, 5)
 	if o.ReturnToTransport {
 		ep.Probe("return-to-transport")
+	}
+	if !o.ReturnToTransport && !o.Stream && tp.Chance("sensedisc", 1, 5) {
+		// WithSenseClientDisconnection: a second goroutine blocks in a read on the connection while the handler runs
+		o.SenseDisconnect = true
+		ep.Probe("sense-disconnect")
 	}
 	r := startEcho(ep, o)
 	n := 1 + tp.Weighted("nreq", []int{2, 3, 3, 2, 1, 1})
